@@ -9,16 +9,16 @@ t0 = time.time()
 res = cfun.verify_cprocs(procs, mod.FIELDS)
 axioms = core.prelude_axioms() + core.strlit_axioms() + cfun.api_axioms() + list(mod.AXIOMS)
 for lbl, hyps, goal in getattr(mod, 'LEMMAS', []):
-    r, = solve.discharge([(lbl, solve.to_smt2(list(getattr(mod, 'LEMMA_AXIOMS', axioms)), hyps, goal))])
+    r, = solve.discharge([(lbl, solve.Lazy(list(getattr(mod, 'LEMMA_AXIOMS', axioms)), hyps, goal))])
     print('lemma', lbl, 'z3=%s cvc5=%s' % (r.z3, r.cvc5))
 for p, status, detail, obls, paths, ex in res:
     print('==', p.name, status, detail, 'paths', paths)
-    items = [(o.label, solve.to_smt2(axioms, o.hyps, o.goal)) for o in obls]
+    items = [(o.label, solve.Lazy(axioms, o.hyps, o.goal)) for o in obls]
     rs = solve.discharge(items)
     for o, r in zip(obls, rs):
         if not r.discharged or '-v' in sys.argv:
             print('    z3=%s cvc5=%s %.2fs %s %s' % (r.z3, r.cvc5, r.time, o.label, ' '.join(map(str, o.trace or []))))
     print('   %d obligations, %d discharged' % (len(obls), sum(1 for r in rs if r.discharged)))
     if ex is not None:
-        sm = solve.discharge([('smoke', solve.to_smt2(axioms, ex.pre, z3.BoolVal(False)))], z3_timeout=2000, use_cvc5=False) if False else None
+        sm = solve.discharge([('smoke', solve.Lazy(axioms, ex.pre, z3.BoolVal(False)))], z3_timeout=2000, use_cvc5=False) if False else None
 print('%.1fs' % (time.time() - t0))
